@@ -104,3 +104,170 @@ def detect_regex_loop(self, value, convert_dict, pre_convert_dict, _it, _seq):
 def detect_registry_loop(self, value, pre_value, _it, _seq):
     return {"value_kept": value is pre_value,
             "none_accepted_before": forall(range(_it), lambda j: not accepts(_seq[j], sval(pre_value)))}
+
+
+@contract(MG + ".optimize_type", props=["C08", "C01", "C02"], abstract=True)
+class OptimizeType:
+    """C08 (shallow normal form of the returned node) + kind preservation used by _optimize_union:
+    Optional is never nested directly in Optional; an overflowed / empty literal becomes str; a union is only returned for a union;
+    Optional only for Optional / union; null and Any are preserved exactly; models keep their keys.  Never raises."""
+    sorts = {"process_model_ptr": "bool", "fields": "dict", "_overflow": "bool", "_literals": "set"}
+    modifies = ["_type", "_types", "_hash", "_sorted", "_overflow", "_literals"]
+
+    def requires(self, meta, process_model_ptr):
+        return {"registry_wf": registry_wf(self.str_types_registry),
+                # every call in the package leaves the flag at its default; pointers are leaves of the simplification
+                "pointers_are_leaves": not process_model_ptr}
+
+    def raises(self, meta, process_model_ptr):
+        return {"StopIteration": True}
+
+    def ensures(self, meta, process_model_ptr, result):
+        plain = not isinstance(meta, DUnion) and not isinstance(meta, ComplexType)
+        return {
+            "model_keeps_keys@C01": implies(ty_is(meta, dict), ty_is(result, dict) and forall(as_dict(meta), lambda k: k in as_dict(result)) and forall(as_dict(result), lambda k: k in as_dict(meta))),
+            "null_preserved@C01,C02": implies(plain, (result is Null) == (meta is Null)),
+            "any_preserved@C02": implies(plain, (result is Unknown) == (meta is Unknown)),
+            "optional_only_from_optional_or_union@C02": implies(isinstance(result, DOptional), isinstance(meta, DOptional) or isinstance(meta, DUnion)),
+            "union_only_from_union@C08": implies(isinstance(result, DUnion), isinstance(meta, DUnion)),
+            "optional_not_nested@C08": implies(isinstance(result, DOptional), not isinstance(attr_of(result, "_type"), DOptional)),
+            "no_overflowed_or_empty_literal@C08,C10": implies(isinstance(result, StringLiteral) and not isinstance(meta, DUnion), not attr_bool(result, "_overflow") and card(attr_set(result, "_literals")) > 0),
+            "classes_returned_as_is": implies(is_class(meta), result is meta),
+            "class_result_only_from_class_or_literal": implies(is_class(result) and not isinstance(meta, DUnion), result is meta or (result is str and isinstance(meta, StringLiteral))),
+            "containers_keep_their_kind": implies(isinstance(meta, DList), result is meta) and implies(isinstance(meta, DDict), result is meta),
+        }
+
+
+@loop(MG + ".optimize_type", 1)
+def optimize_type_model_loop(meta, fields, _it, _seq):
+    return {"keys_so_far": ty_is(fields, dict) and forall(range(_it), lambda j: _seq[j] in fields) and forall(fields, lambda k: exists(range(_it), lambda j: _seq[j] is k))}
+
+
+@spec
+def has_null(t):
+    """some member of the union is null or an Optional"""
+    return exists(range(seq_len(attr_of(t, "_types"))), lambda i: at(attr_of(t, "_types"), i) is Null or isinstance(at(attr_of(t, "_types"), i), DOptional))
+
+
+@contract(MG + ".merge_field_sets", props=["C01", "C02", "C07"], verify=False)
+class MergeFieldSetsStub:
+    """(stub for callers: replaced by the verified contract below when available)"""
+    sorts = {"field_sets": "list", "result": "dict"}
+
+    def ensures(self, field_sets, result):
+        return {"is_model": ty_is(result, dict)}
+
+
+@contract(MG + "._optimize_union", props=["C08", "C01", "C02", "C07"])
+class OptimizeUnion:
+    """C01: a null or Optional member makes the result Optional (or null itself) - the null is never lost;
+    C02/C07: without such a member the result is neither Optional nor null; C08: the result is never a union of fewer than two
+    members, int is dropped next to float; the simplification never fails on a non-empty flat union."""
+    sorts = {"t": "obj:DUnion", "str_types": "any", "types_to_merge": "list", "list_types": "list", "dict_types": "list", "other_types": "list",
+             "types": "list", "optional": "bool", "meta_type": "any", "str_types_registry": "obj:StringSerializableRegistry"}
+    modifies = ["_type", "_types", "_hash", "_sorted", "_overflow", "_literals"]
+
+    def requires(self, t):
+        ms = attr_of(t, "_types")
+        return {"is_union": ty_is(ms, list) and seq_len(ms) >= 1,
+                "flat": forall(range(seq_len(ms)), lambda i: not isinstance(at(ms, i), ComplexType)),
+                "optional_members_not_nested": forall(range(seq_len(ms)), lambda i: implies(isinstance(at(ms, i), DOptional),
+                                                                                            not isinstance(attr_of(at(ms, i), "_type"), DOptional) and not isinstance(attr_of(at(ms, i), "_type"), ComplexType))),
+                "registry_wf": registry_wf(self.str_types_registry)}
+
+    def raises(self, t):
+        return {"StopIteration": True}
+
+    def ensures(self, t, result):
+        return {
+            "null_is_kept@C01": implies(old(has_null(t)), isinstance(result, DOptional) or result is Null),
+            "optional_only_if_null_member@C02,C07": implies(not old(has_null(t)), not isinstance(result, DOptional) and not (result is Null)),
+            "no_union_below_two@C08": implies(isinstance(result, DUnion), seq_len(attr_of(result, "_types")) >= 2),
+            "optional_not_nested@C08": implies(isinstance(result, DOptional), not isinstance(attr_of(result, "_type"), DOptional)),
+        }
+
+
+@loop(MG + "._optimize_union", 1)
+def optimize_union_split(t, str_types, types_to_merge, list_types, dict_types, other_types, _it, _seq):
+    return {
+        "lists": ty_is(other_types, list) and ty_is(as_list(str_types), list) and ty_is(types_to_merge, list) and ty_is(list_types, list) and ty_is(dict_types, list),
+        "every_member_lands_somewhere": seq_len(other_types) + seq_len(types_to_merge) + seq_len(as_list(str_types)) + seq_len(list_types) + seq_len(dict_types) >= _it,
+        "null_recorded_iff_seen": (Null in other_types) == exists(range(_it), lambda i: _seq[i] is Null or isinstance(_seq[i], DOptional)),
+        "others_plain": all_plain(other_types),
+        "strings_are_classes": forall(range(seq_len(as_list(str_types))), lambda k: is_class(at(as_list(str_types), k))),
+    }
+
+
+@loop(MG + "._optimize_union", 3)
+def optimize_union_strip_null(types, pre_types):
+    return {
+        "is_list": ty_is(types, list),
+        "non_null_kept": list_subset_except(pre_types, types, Null),
+        "nothing_new": list_subset(types, pre_types),
+        "members_stay_simplified": forall(range(seq_len(types)), lambda k: not isinstance(at(types, k), DOptional) and not isinstance(at(types, k), DUnion)),
+        "literal_members_counted": forall(range(seq_len(types)), lambda k: implies(isinstance(at(types, k), StringLiteral),
+                                                                                   not attr_bool(at(types, k), "_overflow") and card(attr_set(at(types, k), "_literals")) > 0)),
+    }
+
+
+@lemma(MG + "._optimize_union", after="types = [self.optimize_type(t) for t in other_types]", forget=["types"])
+def optimize_union_after_map(t, other_types, types):
+    """cut point after the recursive simplification of the bucket contents"""
+    return {
+        "same_length": seq_len(types) == seq_len(other_types) and seq_len(types) >= 1 and ty_is(types, list),
+        "null_kept_exactly": (Null in types) == old(has_null(t)),
+        "no_optional_no_union_members": forall(range(seq_len(types)), lambda k: not isinstance(at(types, k), DOptional) and not isinstance(at(types, k), DUnion)),
+        "literal_members_counted": forall(range(seq_len(types)), lambda k: implies(isinstance(at(types, k), StringLiteral),
+                                                                                   not attr_bool(at(types, k), "_overflow") and card(attr_set(at(types, k), "_literals")) > 0)),
+    }
+
+
+@lemma(MG + "._optimize_union", after="if Null in types:", forget=["types"])
+def optimize_union_after_strip(t, types, optional):
+    """cut point before the union is rebuilt: no null, no Optional, no union among the members; the flag records the null"""
+    return {
+        "is_list": ty_is(types, list),
+        "flag_records_null": optional == old(has_null(t)),
+        "members_ok": forall(range(seq_len(types)), lambda k: not isinstance(at(types, k), DOptional) and not isinstance(at(types, k), DUnion) and not (at(types, k) is Null)),
+        "literal_members_counted": forall(range(seq_len(types)), lambda k: implies(isinstance(at(types, k), StringLiteral),
+                                                                                   not attr_bool(at(types, k), "_overflow") and card(attr_set(at(types, k), "_literals")) > 0)),
+    }
+
+
+@elempred
+def plain(x):
+    """a bucket element: not a union, not an Optional, not a tuple"""
+    return not isinstance(x, DUnion) and not isinstance(x, DOptional) and not isinstance(x, ComplexType)
+
+
+@spec
+def buckets_ok(t, other_types):
+    """what is known about `other_types` between the categorisation loop and the recursive simplification"""
+    return ty_is(other_types, list) and ((Null in other_types) == old(has_null(t))) and all_plain(other_types)
+
+
+@lemma(MG + "._optimize_union", after="if int in other_types and float in other_types:", forget=["other_types"])
+def optimize_union_after_int_float(t, other_types, str_types, types_to_merge, list_types, dict_types):
+    return {"buckets_ok": buckets_ok(t, other_types),
+            "something_left": seq_len(other_types) >= 1 or seq_len(types_to_merge) >= 1 or seq_len(as_list(str_types)) >= 1 or seq_len(list_types) >= 1 or seq_len(dict_types) >= 1}
+
+
+@lemma(MG + "._optimize_union", after="if types_to_merge:", forget=["other_types"])
+def optimize_union_after_merge(t, other_types, str_types, list_types, dict_types):
+    return {"buckets_ok": buckets_ok(t, other_types),
+            "something_left": seq_len(other_types) >= 1 or seq_len(as_list(str_types)) >= 1 or seq_len(list_types) >= 1 or seq_len(dict_types) >= 1}
+
+
+@lemma(MG + "._optimize_union", after="for cls, iterable_types in", forget=["other_types"])
+def optimize_union_after_containers(t, other_types, str_types):
+    return {"buckets_ok": buckets_ok(t, other_types), "something_left": seq_len(other_types) >= 1 or seq_len(as_list(str_types)) >= 1}
+
+
+@lemma(MG + "._optimize_union", after="if str in str_types:", forget=["other_types"])
+def optimize_union_after_strings(t, other_types, str_types, types_to_merge, list_types, dict_types):
+    return {"buckets_ok": buckets_ok(t, other_types), "something_to_simplify": seq_len(other_types) >= 1}
+
+
+@lemma(MG + "._optimize_union", after="str_types = self.str_types_registry.resolve(*str_types)")
+def optimize_union_after_resolve(t, str_types):
+    return {"resolved_are_classes": forall(as_set(str_types), lambda x: is_class(x))}
